@@ -264,6 +264,39 @@ Proof.
   - rewrite (list_sum_perm _ _ (sort_desc_perm _)). apply filter_nonzero_sum.
 Qed.
 
+Lemma in_sample_orbit s v : In v s -> v = 0 \/ In v (sample_to_orbit s).
+Proof.
+  intros H. destruct v as [|v]; [left; auto|right].
+  unfold sample_to_orbit. apply (Permutation_in _ (Permutation_sym (sort_desc_perm _))).
+  apply filter_In. split; auto.
+Qed.
+
+(* whatever the oracle draws, event_to_sample returns a sample of the requested event *)
+Theorem event_to_sample_sound k c m d perm s :
+  1 <= k -> Permutation perm (seq 0 m) -> event_to_sample k c m d perm = Some s ->
+  length s = m /\ list_sum s = k /\ Forall (fun v => v <= c) s /\ sample_to_event s c = Some k.
+Proof.
+  intros Hk P H. unfold event_to_sample in H.
+  destruct (c * m <? k); [discriminate|].
+  set (orbs := filter (fun o => list_max o <=? c) (orbits k)) in *.
+  set (cands := filter (fun o => negb (N.eqb (orbit_cardinality o m) 0)) orbs) in *.
+  destruct cands as [|o0 rest] eqn:Ec; [discriminate|].
+  assert (Hin : In (nth (d mod length (o0 :: rest)) (o0 :: rest) []) cands).
+  { rewrite Ec. apply nth_In. apply Nat.mod_upper_bound. simpl; lia. }
+  set (o := nth (d mod length (o0 :: rest)) (o0 :: rest) []) in *.
+  unfold cands in Hin. apply filter_In in Hin. destruct Hin as [Hin _].
+  unfold orbs in Hin. apply filter_In in Hin. destruct Hin as [Ho Hmax].
+  apply Nat.leb_le in Hmax.
+  destruct (orbits_sound k o Hk Ho) as [D [F S]].
+  destruct (orbit_to_sample_roundtrip o m perm s D F P H) as [R L].
+  assert (Hsum : list_sum s = k).
+  { destruct (sample_to_orbit_partition s) as [_ [_ E]]. rewrite R in E. lia. }
+  assert (Hle : Forall (fun v => v <= c) s).
+  { apply Forall_forall. intros v Hv. destruct (in_sample_orbit s v Hv) as [->|Hv']; [lia|].
+    rewrite R in Hv'. apply list_max_le_iff in Hmax. rewrite Forall_forall in Hmax. auto. }
+  repeat split; auto. apply sample_to_event_spec. auto.
+Qed.
+
 (* ---------- exact cardinalities ---------- *)
 Lemma factN_S n : factN (S n) = (N.of_nat (S n) * factN n)%N.
 Proof. reflexivity. Qed.
